@@ -82,11 +82,24 @@ package valid
 // ---------------------------------------------------------------------------
 // clause builders (string content: see C02/C15 clauses further down)
 
+// clause text (C02 shape, C15 message verbatim): pfx = quoted path, head = pfx + input "<value>"
 //@ func GetJoinValidErrStr
+//@   let pfx = ite(objName != "" && fieldName != "", "\"" ++ objName ++ "." ++ fieldName ++ "\" ", ite(objName == "" && fieldName != "", "\"" ++ fieldName ++ "\" ", ""))
+//@   let head = pfx ++ "input \"" ++ inputVal ++ "\""
+//@   let inject = ite(len(others) >= 1 && !contains(others[0], ExplainEn) && !contains(others[0], ExplainZh), ExplainEn ++ " ", "")
 //@   modifies nothing
+//@   ensures [C02 C15 clause.none] len(others) == 0 ==> result == head ++ ErrEndFlag
+//@   ensures [C15 clause.msg] len(others) == 1 ==> result == head ++ ", " ++ inject ++ others[0] ++ ErrEndFlag
+//@   ensures [C02 clause.shape] prefixof(head, result) && suffixof(ErrEndFlag, result)
+//@   loop#0 invariant res != nil && fresh(res) && lastIndex == len(others) - 1 && len(others) >= 1
+//@   loop#0 invariant prefixof(head, sb.content(res)) && (rangeindex == lastIndex ==> suffixof(ErrEndFlag, sb.content(res)))
+//@   loop#0 invariant len(others) == 1 ==> sb.content(res) == ite(rangeindex < 0, head ++ ", " ++ inject, head ++ ", " ++ inject ++ others[0] ++ ErrEndFlag)
 
 //@ func GetJoinFieldErr
+//@   let pfx = ite(objName != "" && fieldName != "", "\"" ++ objName ++ "." ++ fieldName ++ "\" ", "")
 //@   modifies nothing
+//@   ensures [C02 fielderr.shape] prefixof(pfx, result) && suffixof(ErrEndFlag, result)
+//@   ensures [C02 fielderr.string] itag(err) == tagof("string") ==> result == pfx ++ unbox("String", err) ++ ErrEndFlag
 
 // ---------------------------------------------------------------------------
 // size rules
@@ -104,6 +117,7 @@ package valid
 //@   ensures [C01 eq.verdict] atoiOk(es) && measureDefined(k) && fits53(n) ==> (isEq <==> measure(tv) == n)
 
 //@ func To
+//@   at call GetJoinValidErrStr#* assert [C15 to.msg] ParseValidNameKV.cusMsg(validName) != "" ==> len(others) == 1 && others[0] == ParseValidNameKV.cusMsg(validName)
 //@   requires errBuf != nil && rv.valid(tv) && !rv.ro(tv)
 //@   let val = ParseValidNameKV.value(validName)
 //@   let i = indexof(val, "~")
@@ -115,6 +129,7 @@ package valid
 //@   ensures [C01 to.verdict] wf && measureDefined(k) && fits53(lo) && fits53(hi) ==> ((sb.nw(errBuf) > old(sb.nw(errBuf))) <==> (measure(tv) < lo || measure(tv) > hi))
 
 //@ func OTo
+//@   at call GetJoinValidErrStr#* assert [C15 oto.msg] ParseValidNameKV.cusMsg(validName) != "" ==> len(others) == 1 && others[0] == ParseValidNameKV.cusMsg(validName)
 //@   requires errBuf != nil && rv.valid(tv) && !rv.ro(tv)
 //@   let val = ParseValidNameKV.value(validName)
 //@   let i = indexof(val, "~")
@@ -126,6 +141,7 @@ package valid
 //@   ensures [C01 oto.verdict] wf && measureDefined(k) && fits53(lo) && fits53(hi) ==> ((sb.nw(errBuf) > old(sb.nw(errBuf))) <==> (measure(tv) <= lo || measure(tv) >= hi))
 
 //@ func Ge
+//@   at call GetJoinValidErrStr#* assert [C15 ge.msg] ParseValidNameKV.cusMsg(validName) != "" ==> len(others) == 1 && others[0] == ParseValidNameKV.cusMsg(validName)
 //@   requires errBuf != nil && rv.valid(tv) && !rv.ro(tv)
 //@   let val = ParseValidNameKV.value(validName)
 //@   let k = rv.kind(tv)
@@ -133,6 +149,7 @@ package valid
 //@   ensures [C01 ge.verdict] atoiOk(val) && measureDefined(k) && fits53(atoi(val)) ==> ((sb.nw(errBuf) > old(sb.nw(errBuf))) <==> measure(tv) < atoi(val))
 
 //@ func Le
+//@   at call GetJoinValidErrStr#* assert [C15 le.msg] ParseValidNameKV.cusMsg(validName) != "" ==> len(others) == 1 && others[0] == ParseValidNameKV.cusMsg(validName)
 //@   requires errBuf != nil && rv.valid(tv) && !rv.ro(tv)
 //@   let val = ParseValidNameKV.value(validName)
 //@   let k = rv.kind(tv)
@@ -140,6 +157,7 @@ package valid
 //@   ensures [C01 le.verdict] atoiOk(val) && measureDefined(k) && fits53(atoi(val)) ==> ((sb.nw(errBuf) > old(sb.nw(errBuf))) <==> measure(tv) > atoi(val))
 
 //@ func Gt
+//@   at call GetJoinValidErrStr#* assert [C15 gt.msg] ParseValidNameKV.cusMsg(validName) != "" ==> len(others) == 1 && others[0] == ParseValidNameKV.cusMsg(validName)
 //@   requires errBuf != nil && rv.valid(tv) && !rv.ro(tv)
 //@   let val = ParseValidNameKV.value(validName)
 //@   let k = rv.kind(tv)
@@ -147,6 +165,7 @@ package valid
 //@   ensures [C01 gt.verdict] atoiOk(val) && measureDefined(k) && fits53(atoi(val)) ==> ((sb.nw(errBuf) > old(sb.nw(errBuf))) <==> measure(tv) <= atoi(val))
 
 //@ func Lt
+//@   at call GetJoinValidErrStr#* assert [C15 lt.msg] ParseValidNameKV.cusMsg(validName) != "" ==> len(others) == 1 && others[0] == ParseValidNameKV.cusMsg(validName)
 //@   requires errBuf != nil && rv.valid(tv) && !rv.ro(tv)
 //@   let val = ParseValidNameKV.value(validName)
 //@   let k = rv.kind(tv)
@@ -154,6 +173,7 @@ package valid
 //@   ensures [C01 lt.verdict] atoiOk(val) && measureDefined(k) && fits53(atoi(val)) ==> ((sb.nw(errBuf) > old(sb.nw(errBuf))) <==> measure(tv) >= atoi(val))
 
 //@ func Eq
+//@   at call GetJoinValidErrStr#* assert [C15 eq.msg] ParseValidNameKV.cusMsg(validName) != "" ==> len(others) == 1 && others[0] == ParseValidNameKV.cusMsg(validName)
 //@   requires errBuf != nil && rv.valid(tv) && !rv.ro(tv)
 //@   let val = ParseValidNameKV.value(validName)
 //@   let k = rv.kind(tv)
@@ -161,6 +181,7 @@ package valid
 //@   ensures [C01 Eq.verdict] atoiOk(val) && measureDefined(k) && fits53(atoi(val)) ==> ((sb.nw(errBuf) > old(sb.nw(errBuf))) <==> measure(tv) != atoi(val))
 
 //@ func NoEq
+//@   at call GetJoinValidErrStr#* assert [C15 noeq.msg] ParseValidNameKV.cusMsg(validName) != "" ==> len(others) == 1 && others[0] == ParseValidNameKV.cusMsg(validName)
 //@   requires errBuf != nil && rv.valid(tv) && !rv.ro(tv)
 //@   let val = ParseValidNameKV.value(validName)
 //@   let k = rv.kind(tv)
@@ -306,78 +327,91 @@ package valid
 //@   ensures [C05 C13 isstr] (err == nil) <==> rv.kind(tv) == 24
 
 //@ func Phone
+//@   at call GetJoinValidErrStr#* assert [C15 phone.msg] ParseValidNameKV.cusMsg(validName) != "" ==> len(others) == 1 && others[0] == ParseValidNameKV.cusMsg(validName)
 //@   requires errBuf != nil && rv.valid(tv) && !rv.ro(tv)
 //@   modifies sb.content(errBuf), sb.nw(errBuf)
 //@   ensures [C05 phone.verdict] rv.kind(tv) == 24 ==> ((sb.nw(errBuf) > old(sb.nw(errBuf))) <==> !matches(PhoneRe, rv.str(tv)))
 //@   ensures [C02 phone.once] sb.nw(errBuf) <= old(sb.nw(errBuf)) + 1 && prefixof(old(sb.content(errBuf)), sb.content(errBuf))
 
 //@ func Email
+//@   at call GetJoinValidErrStr#* assert [C15 email.msg] ParseValidNameKV.cusMsg(validName) != "" ==> len(others) == 1 && others[0] == ParseValidNameKV.cusMsg(validName)
 //@   requires errBuf != nil && rv.valid(tv) && !rv.ro(tv)
 //@   modifies sb.content(errBuf), sb.nw(errBuf)
 //@   ensures [C05 email.verdict] rv.kind(tv) == 24 ==> ((sb.nw(errBuf) > old(sb.nw(errBuf))) <==> !matches(EmailRe, rv.str(tv)))
 //@   ensures [C02 email.once] sb.nw(errBuf) <= old(sb.nw(errBuf)) + 1 && prefixof(old(sb.content(errBuf)), sb.content(errBuf))
 
 //@ func IDCard
+//@   at call GetJoinValidErrStr#* assert [C15 idcard.msg] ParseValidNameKV.cusMsg(validName) != "" ==> len(others) == 1 && others[0] == ParseValidNameKV.cusMsg(validName)
 //@   requires errBuf != nil && rv.valid(tv) && !rv.ro(tv)
 //@   modifies sb.content(errBuf), sb.nw(errBuf)
 //@   ensures [C05 idcard.verdict] rv.kind(tv) == 24 ==> ((sb.nw(errBuf) > old(sb.nw(errBuf))) <==> !matches(IdCardRe, rv.str(tv)))
 //@   ensures [C02 idcard.once] sb.nw(errBuf) <= old(sb.nw(errBuf)) + 1 && prefixof(old(sb.content(errBuf)), sb.content(errBuf))
 
 //@ func Ip
+//@   at call GetJoinValidErrStr#* assert [C15 ip.msg] ParseValidNameKV.cusMsg(validName) != "" ==> len(others) == 1 && others[0] == ParseValidNameKV.cusMsg(validName)
 //@   requires errBuf != nil && rv.valid(tv) && !rv.ro(tv)
 //@   modifies sb.content(errBuf), sb.nw(errBuf)
 //@   ensures [C05 ip.verdict] rv.kind(tv) == 24 ==> ((sb.nw(errBuf) > old(sb.nw(errBuf))) <==> (parseIP(rv.str(tv)) == nil))
 //@   ensures [C02 ip.once] sb.nw(errBuf) <= old(sb.nw(errBuf)) + 1 && prefixof(old(sb.content(errBuf)), sb.content(errBuf))
 
 //@ func Ipv4
+//@   at call GetJoinValidErrStr#* assert [C15 ipv4.msg] ParseValidNameKV.cusMsg(validName) != "" ==> len(others) == 1 && others[0] == ParseValidNameKV.cusMsg(validName)
 //@   requires errBuf != nil && rv.valid(tv) && !rv.ro(tv)
 //@   modifies sb.content(errBuf), sb.nw(errBuf)
 //@   ensures [C05 ipv4.verdict] rv.kind(tv) == 24 ==> ((sb.nw(errBuf) > old(sb.nw(errBuf))) <==> (parseIP(rv.str(tv)) == nil || ipTo4(parseIP(rv.str(tv))) == nil))
 //@   ensures [C02 ipv4.once] sb.nw(errBuf) <= old(sb.nw(errBuf)) + 1 && prefixof(old(sb.content(errBuf)), sb.content(errBuf))
 
 //@ func Ipv6
+//@   at call GetJoinValidErrStr#* assert [C15 ipv6.msg] ParseValidNameKV.cusMsg(validName) != "" ==> len(others) == 1 && others[0] == ParseValidNameKV.cusMsg(validName)
 //@   requires errBuf != nil && rv.valid(tv) && !rv.ro(tv)
 //@   modifies sb.content(errBuf), sb.nw(errBuf)
 //@   ensures [C05 ipv6.verdict] rv.kind(tv) == 24 ==> ((sb.nw(errBuf) > old(sb.nw(errBuf))) <==> (parseIP(rv.str(tv)) == nil || ipTo4(parseIP(rv.str(tv))) != nil))
 //@   ensures [C02 ipv6.once] sb.nw(errBuf) <= old(sb.nw(errBuf)) + 1 && prefixof(old(sb.content(errBuf)), sb.content(errBuf))
 
 //@ func Year
+//@   at call GetJoinValidErrStr#* assert [C15 year.msg] ParseValidNameKV.cusMsg(validName) != "" ==> len(others) == 1 && others[0] == ParseValidNameKV.cusMsg(validName)
 //@   requires errBuf != nil && rv.valid(tv) && !rv.ro(tv)
 //@   modifies sb.content(errBuf), sb.nw(errBuf)
 //@   ensures [C05 year.verdict] rv.kind(tv) == 24 ==> ((sb.nw(errBuf) > old(sb.nw(errBuf))) <==> (!timeParses("2006", rv.str(tv))))
 //@   ensures [C02 year.once] sb.nw(errBuf) <= old(sb.nw(errBuf)) + 1 && prefixof(old(sb.content(errBuf)), sb.content(errBuf))
 
 //@ func Prefix
+//@   at call GetJoinValidErrStr#* assert [C15 prefix.msg] ParseValidNameKV.cusMsg(validName) != "" ==> len(others) == 1 && others[0] == ParseValidNameKV.cusMsg(validName)
 //@   requires errBuf != nil && rv.valid(tv) && !rv.ro(tv)
 //@   modifies sb.content(errBuf), sb.nw(errBuf)
 //@   ensures [C05 prefix.verdict] rv.kind(tv) == 24 ==> ((sb.nw(errBuf) > old(sb.nw(errBuf))) <==> (!prefixof(ParseValidNameKV.value(validName), rv.str(tv))))
 //@   ensures [C02 prefix.once] sb.nw(errBuf) <= old(sb.nw(errBuf)) + 1 && prefixof(old(sb.content(errBuf)), sb.content(errBuf))
 
 //@ func Suffix
+//@   at call GetJoinValidErrStr#* assert [C15 suffix.msg] ParseValidNameKV.cusMsg(validName) != "" ==> len(others) == 1 && others[0] == ParseValidNameKV.cusMsg(validName)
 //@   requires errBuf != nil && rv.valid(tv) && !rv.ro(tv)
 //@   modifies sb.content(errBuf), sb.nw(errBuf)
 //@   ensures [C05 suffix.verdict] rv.kind(tv) == 24 ==> ((sb.nw(errBuf) > old(sb.nw(errBuf))) <==> (!suffixof(ParseValidNameKV.value(validName), rv.str(tv))))
 //@   ensures [C02 suffix.once] sb.nw(errBuf) <= old(sb.nw(errBuf)) + 1 && prefixof(old(sb.content(errBuf)), sb.content(errBuf))
 
 //@ func File
+//@   at call GetJoinValidErrStr#* assert [C15 file.msg] ParseValidNameKV.cusMsg(validName) != "" ==> len(others) == 1 && others[0] == ParseValidNameKV.cusMsg(validName)
 //@   requires errBuf != nil && rv.valid(tv) && !rv.ro(tv)
 //@   modifies sb.content(errBuf), sb.nw(errBuf)
 //@   ensures [C05 file.verdict] rv.kind(tv) == 24 ==> ((sb.nw(errBuf) > old(sb.nw(errBuf))) <==> (!statOk(rv.str(tv)) || statIsDir(rv.str(tv))))
 //@   ensures [C02 file.once] sb.nw(errBuf) <= old(sb.nw(errBuf)) + 1 && prefixof(old(sb.content(errBuf)), sb.content(errBuf))
 
 //@ func Dir
+//@   at call GetJoinValidErrStr#* assert [C15 dir.msg] ParseValidNameKV.cusMsg(validName) != "" ==> len(others) == 1 && others[0] == ParseValidNameKV.cusMsg(validName)
 //@   requires errBuf != nil && rv.valid(tv) && !rv.ro(tv)
 //@   modifies sb.content(errBuf), sb.nw(errBuf)
 //@   ensures [C05 dir.verdict] rv.kind(tv) == 24 ==> ((sb.nw(errBuf) > old(sb.nw(errBuf))) <==> (!statOk(rv.str(tv)) || !statIsDir(rv.str(tv))))
 //@   ensures [C02 dir.once] sb.nw(errBuf) <= old(sb.nw(errBuf)) + 1 && prefixof(old(sb.content(errBuf)), sb.content(errBuf))
 
 //@ func Json
+//@   at call GetJoinValidErrStr#* assert [C15 json.msg] ParseValidNameKV.cusMsg(validName) != "" ==> len(others) == 1 && others[0] == ParseValidNameKV.cusMsg(validName)
 //@   requires errBuf != nil && rv.valid(tv) && !rv.ro(tv)
 //@   modifies sb.content(errBuf), sb.nw(errBuf)
 //@   ensures [C05 json.verdict] rv.kind(tv) == 24 ==> ((sb.nw(errBuf) > old(sb.nw(errBuf))) <==> (!jsonValid(rv.str(tv))))
 //@   ensures [C02 json.once] sb.nw(errBuf) <= old(sb.nw(errBuf)) + 1 && prefixof(old(sb.content(errBuf)), sb.content(errBuf))
 
 //@ func Year2Month
+//@   at call GetJoinValidErrStr#* assert [C15 year2month.msg] ParseValidNameKV.cusMsg(validName) != "" ==> len(others) == 1 && others[0] == ParseValidNameKV.cusMsg(validName)
 //@   requires errBuf != nil && rv.valid(tv) && !rv.ro(tv)
 //@   let val = ParseValidNameKV.value(validName)
 //@   let sep = ite(val != "", trimSet(val, "'"), "-")
@@ -386,6 +420,7 @@ package valid
 //@   ensures [C02 year2month.once] sb.nw(errBuf) <= old(sb.nw(errBuf)) + 1 && prefixof(old(sb.content(errBuf)), sb.content(errBuf))
 
 //@ func Date
+//@   at call GetJoinValidErrStr#* assert [C15 date.msg] ParseValidNameKV.cusMsg(validName) != "" ==> len(others) == 1 && others[0] == ParseValidNameKV.cusMsg(validName)
 //@   requires errBuf != nil && rv.valid(tv) && !rv.ro(tv)
 //@   let val = ParseValidNameKV.value(validName)
 //@   let sep = ite(val != "", trimSet(val, "'"), "-")
@@ -394,6 +429,7 @@ package valid
 //@   ensures [C02 date.once] sb.nw(errBuf) <= old(sb.nw(errBuf)) + 1 && prefixof(old(sb.content(errBuf)), sb.content(errBuf))
 
 //@ func Int
+//@   at call GetJoinValidErrStr#* assert [C15 int.msg] ParseValidNameKV.cusMsg(validName) != "" ==> len(others) == 1 && others[0] == ParseValidNameKV.cusMsg(validName)
 //@   requires errBuf != nil && rv.valid(tv) && !rv.ro(tv)
 //@   let k = rv.kind(tv)
 //@   modifies sb.content(errBuf), sb.nw(errBuf)
@@ -403,6 +439,7 @@ package valid
 //@   ensures [C02 int.once] sb.nw(errBuf) <= old(sb.nw(errBuf)) + 1 && prefixof(old(sb.content(errBuf)), sb.content(errBuf))
 
 //@ func Float
+//@   at call GetJoinValidErrStr#* assert [C15 float.msg] ParseValidNameKV.cusMsg(validName) != "" ==> len(others) == 1 && others[0] == ParseValidNameKV.cusMsg(validName)
 //@   requires errBuf != nil && rv.valid(tv) && !rv.ro(tv)
 //@   let k = rv.kind(tv)
 //@   modifies sb.content(errBuf), sb.nw(errBuf)
@@ -572,6 +609,7 @@ package valid
 //@   ensures result == v && vs.ok(v)
 
 //@ func (*VStruct).required
+//@   at call GetJoinValidErrStr#* assert [C15 required.msg] cusMsg != "" ==> len(others) == 1 && others[0] == cusMsg
 //@   requires vs.ok(v) && cache.inv() && rv.valid(tv) && !rv.ro(tv)
 //@   modifies sb.content(v.errBuf), sb.nw(v.errBuf), cache.stored, lst.mem, lst.stamp, lst.size, mu.held, mu.acq, cb.count, cb.key, cb.val, "H.container/list.Element.Value", v.vc.valid2FieldsMap, "MapDom.String.Slice", "MapVal.String.Slice", "MapLen.String.Slice", "Mem.Int"
 //@   ensures vs.ok(v) && cache.inv()
@@ -786,6 +824,7 @@ package valid
 //@   ensures [C05 include.pred] result == contains(tvVal, v)
 
 //@ func in
+//@   at call GetJoinValidErrStr#* assert [C15 in.msg] ParseValidNameKV.cusMsg(validName) != "" ==> len(others) == 1 && others[0] == ParseValidNameKV.cusMsg(validName)
 //@   requires errBuf != nil && rv.valid(tv) && !rv.ro(tv) && fn != nil
 //@   modifies sb.content(errBuf), sb.nw(errBuf)
 //@   ensures [C02 in.once] sb.nw(errBuf) <= old(sb.nw(errBuf)) + 1 && prefixof(old(sb.content(errBuf)), sb.content(errBuf))
@@ -807,6 +846,7 @@ package valid
 //@   loop#0 decreases l - i
 
 //@ func Ints
+//@   at call GetJoinValidErrStr#* assert [C15 ints.msg] ParseValidNameKV.cusMsg(validName) != "" ==> len(others) == 1 && others[0] == ParseValidNameKV.cusMsg(validName)
 //@   requires errBuf != nil && rv.valid(tv) && !rv.ro(tv)
 //@   modifies sb.content(errBuf), sb.nw(errBuf)
 //@   ensures [C02 ints.once] sb.nw(errBuf) <= old(sb.nw(errBuf)) + 1 && prefixof(old(sb.content(errBuf)), sb.content(errBuf))
@@ -814,6 +854,7 @@ package valid
 //@   loop#1 decreases l - i
 
 //@ func Unique
+//@   at call GetJoinValidErrStr#* assert [C15 unique.msg] ParseValidNameKV.cusMsg(validName) != "" ==> len(others) == 1 && others[0] == ParseValidNameKV.cusMsg(validName)
 //@   requires errBuf != nil && rv.valid(tv) && !rv.ro(tv)
 //@   modifies sb.content(errBuf), sb.nw(errBuf)
 //@   ensures [C02 unique.once] sb.nw(errBuf) <= old(sb.nw(errBuf)) + 1 && prefixof(old(sb.content(errBuf)), sb.content(errBuf))
@@ -822,6 +863,7 @@ package valid
 //@   loop#1 decreases l - i
 
 //@ func Datetime
+//@   at call GetJoinValidErrStr#* assert [C15 datetime.msg] ParseValidNameKV.cusMsg(validName) != "" ==> len(others) == 1 && others[0] == ParseValidNameKV.cusMsg(validName)
 //@   requires errBuf != nil && rv.valid(tv) && !rv.ro(tv)
 //@   modifies sb.content(errBuf), sb.nw(errBuf)
 //@   ensures [C02 datetime.once] sb.nw(errBuf) <= old(sb.nw(errBuf)) + 1 && prefixof(old(sb.content(errBuf)), sb.content(errBuf))
